@@ -198,6 +198,19 @@ PROPS = {
         level_text='Thousands of records per quick run are recomputed from the bytes on disk; held on the files, patterns, styles and context settings executed.',
         level_note='Trusted: python json and utf-8 decoding, the 60-line oracle in drivers/c16.py. Record ORDER is not judged.',
     ),
+    'C15': dict(
+        engines=[('py', 'c15')],
+        cli=True,
+        technique='runtime monitoring at the process boundary: independent applicability predicate (extension table, own glob matcher, severity/override/filter logic) vs `ast-grep scan --json` and its exit status',
+        rule=('generated projects: 4-12 files in nested directories with many extensions (several per language, extensions of no language, one extension assigned by languageGlobs), 3-10 rules each '
+              '`kind: <root kind of its language>` (fires exactly once per file it is applied to) with random language, severity, files and ignores globs of the forms **/*.ext, **/name.ext, dir/**, '
+              'dir/**/*.ext and exact paths; 6 (quick) / 12 (thorough) invocations per project from the project root with none / blanket / per-id / mixed --error|--warning|--info|--hint|--off overrides or --filter. '
+              'The observed set of (file, ruleId, severity) must equal applies(rule, file) = language AND (no files OR some files glob) AND no ignores glob AND effective severity != off AND id passes the filter, '
+              'and exit status != 0 iff some reported finding has effective severity error. evaluations = invocations. Non-trivial = distinct invocations in which a glob or an override (not only the language) decides for some pair.'),
+        floor={'quick': 300, 'thorough': 10000},
+        level_text='Hundreds (quick) to ~18 000 (thorough) invocations over generated layouts; every (rule, file) pair is decided by the independent predicate; held on the projects executed.',
+        level_note='Trusted: the 15-line glob matcher restricted to forms whose meaning does not depend on `*` crossing `/`, the extension table copied from the language reference. Paths are taken relative to the project root without `./`.',
+    ),
 }
 
 NOT_APPLICABLE = {}
